@@ -231,7 +231,8 @@ func (svd SigVerificationDecorator) AnteHandle(ctx sdk.Context, tx sdk.Tx, simul
 			if !bytes.Equal(pubKey.Address(), acc.GetAddress()) {
 				// try verifying ethereum signature
 				if ethErr := VerifyEthereumSignature(pubKey, signerData, sig.Data, svd.signModeHandler, tx, svd.interfaceRegistry); ethErr == nil {
-					return next(ctx, tx, simulate)
+					// this signer is authenticated; the remaining signers still have to be verified
+					continue
 				} else {
 					errMsg := fmt.Sprintf("ethereum signature verification failed; %s", ethErr.Error())
 					return ctx, sdkerrors.Wrap(sdkerrors.ErrUnauthorized, errMsg)
@@ -300,7 +301,22 @@ func VerifyEthereumSignature(pubKey cryptotypes.PubKey, signerData authsigning.S
 				if EthChainID != tx.ChainId().Uint64() {
 					return fmt.Errorf("invalid ethereum chain ID, expected %d, got %d", EthChainID, tx.ChainId().Uint64())
 				}
-				return msg.ValidateBasic()
+				if err := msg.ValidateBasic(); err != nil {
+					return err
+				}
+				// the raw transaction must be signed by the account named as signer (msg.Sender)
+				ethSender, err := tokenstypes.GetSenderAddrFromRawTxBytes(msg.Data)
+				if err != nil {
+					return err
+				}
+				signerAddr, err := sdk.AccAddressFromBech32(signerData.Address)
+				if err != nil {
+					return err
+				}
+				if ethSender != common.BytesToAddress(signerAddr) {
+					return fmt.Errorf("mismatching ethereum transaction sender and signer: %s != %s", ethSender.String(), common.BytesToAddress(signerAddr).String())
+				}
+				return nil
 			default:
 				msg := msg.GetCachedValue().(sdk.Msg)
 				signBytes, err = GenEIP712SignBytesFromMsg(msg, signerData.Sequence)
